@@ -21,6 +21,7 @@ func isCoinMover(name string) bool {
 
 // C15 — no coins moved except the fee.
 func checkC15(p *Prog, r *Report) {
+	checkNoLostReceiverWrites(p, r, "C15", "x/*/types", func(fn *ssa.Function) bool { return inExactPkgs(fn, "x/aol/types", "x/did/types", "x/pnft/types", "x/burn/types") })
 	checkNoDroppedErrors(p, r, "C15", "x/*", func(fn *ssa.Function) bool { return InPkgs(fn, "x") })
 	checkNoNilWrap(p, r, "C15", "x/*, app/*", func(fn *ssa.Function) bool { return InPkgs(fn, "x", "app") })
 	r.Explain = "Decided statically: D2 (verdict) from the 14 message handlers, their ValidateBasic/GetSigners/GetSignBytes and the Begin/EndBlock of the aol, did and pnft modules, following definite call edges through module code and the x/nft keeper, no function of x/bank/keeper that moves, mints or burns coins is reached and no coin-moving method is invoked on any bank-capable interface value; D1 (fast sufficient condition, reported as notes when it does not hold) no value of a bank-capable type exists in x/aol or x/did, and in x/pnft the only one is the constructor parameter forwarded to nftkeeper.NewKeeper, whose field `bk` is never read by the x/nft keeper; D3 MsgAddRecordRequest.GetSigners returns [feePayer, writer] exactly when FeePayerAddress is non-empty and [writer] otherwise, every other message has a single signer, and the ante chain charges fees through DeductFeeDecorator wired with the fee-grant keeper. The fee decorator's TxFeeChecker is nil (SDK default) or returns tx.GetFee() on every success path; ante decorators defined in the module reach no aol/did/pnft store write (ante writes survive a failed message)."
